@@ -366,6 +366,7 @@ void nl_string_shrink_to_fit(nl_string_t *str) {
     if (!str || str->capacity == str->length) return;
     
     size_t new_capacity = str->length + (str->null_terminated ? 1 : 0);
+    if (new_capacity == 0) new_capacity = 1;  /* realloc(p, 0) frees p and returns NULL */
     char *new_data = realloc(str->data, new_capacity);
     if (!new_data) return;
     
